@@ -470,9 +470,9 @@ func aggregateArgumentOrder(c *eng.Ctx) {
 		what             string
 	}
 	table := map[string]role{
-		"tsdb/memdb.write":                        {fromCall("BytesToFloat64"), isParam("value"), "stored = the slot's value in the write buffer, incoming = the written value"},
-		"tsdb/memdb.merge":                        {fromCall("getOldFloatValue"), fromCall("getCurrentValue"), "stored = the compressed (earlier) value, incoming = the write buffer's (later) value"},
-		"aggregation.DownSamplingMultiSeriesInto": {loadOfNamedSlice("targetValues"), fromCall("Value"), "stored = the target slot, incoming = the decoded source value"},
+		"tsdb/memdb.write":                            {fromCall("BytesToFloat64"), isParam("value"), "stored = the slot's value in the write buffer, incoming = the written value"},
+		"tsdb/memdb.merge":                            {fromCall("getOldFloatValue"), fromCall("getCurrentValue"), "stored = the compressed (earlier) value, incoming = the write buffer's (later) value"},
+		"aggregation.DownSamplingMultiSeriesInto":     {loadOfNamedSlice("targetValues"), fromCall("Value"), "stored = the target slot, incoming = the decoded source value"},
 		"aggregation.fieldAggregator.AggregateBySlot": {fromCall("GetValue"), isParam("value"), "stored = the aggregator's slot, incoming = the value handed in"},
 	}
 	n := 0
